@@ -178,6 +178,15 @@ pub fn prefill(quick: bool) -> Vec<Scenario> {
         Scenario::new("prefill-launchfail", vec![w(1)], vec![vec![sub(arr(&[0, 1, 2], 1))]])
             .prefill(1, 1)
             .launch_fail(1, 1, 1),
+        // worker loss / join while a prefill is being disposed (bounded prefix of the thorough scenario)
+        Scenario::new(
+            "prefill-hiprio-kill-q",
+            vec![w(1), w(1).spare()],
+            vec![vec![sub(arr(&[0, 1, 2], 1))], vec![sub(arr(&[0], 1).prio(5))]],
+        )
+        .prefill(1, 1)
+        .budgets(1, 0, 1, 2)
+        .depth(9),
     ];
     if !quick {
         v.push(
